@@ -577,6 +577,11 @@ def run(ctx: Context, rep) -> None:
     # (same check as C08.create)
     from sa.rules import shared as _sh06
     _sh06.share_rules(ctx, rep, "c08", {"C08.create": "C06.create"})
+    # a close that is retried after an exception (DatasetFiller.__exit__
+    # closes the open shard again) writes everything that was buffered: the
+    # npz writer hands its buffers themselves to NumPy's save and does not
+    # consume them on the way (same structural check as C01.npz-save)
+    _sh06.share_rules(ctx, rep, "c01", {"C01.npz-save": "C06.npz-save"})
 
 _U = "src/sedpack/io/utils.py"
 _SM = "src/sedpack/io/shard_file_metadata.py"
